@@ -311,8 +311,6 @@ func calcOffsets(ctx *gal.Ctx, fake, galago []byte) {
 		if len(l.img) > 1<<20 {
 			addrs = addrs[:6] // every call re-parses the image
 		}
-		var d9 []string
-		var firstIdx = -1
 		for _, addr := range addrs {
 			var got uint64
 			var err error
@@ -325,10 +323,7 @@ func calcOffsets(ctx *gal.Ctx, fake, galago []byte) {
 			}
 			in := map[string]interface{}{"op": "CalcImageOffset", "image": l.name, "size": size, "addr": addr, "layout": l.kind}
 			inRange := addr >= base && addr < fourGiB
-			idx := ctx.Add("calc-image-offset/"+l.kind, fmt.Sprintf("CCalcOff %s %s %s", l.lit, gal.U(addr), obs), in, inRange)
-			if firstIdx < 0 {
-				firstIdx = idx
-			}
+			idx := ctx.Add("calc-image-offset/"+l.kind, fmt.Sprintf("CCalcOff %s %d %s %s", l.lit, size, gal.U(addr), obs), in, inRange)
 			switch {
 			case p:
 				ctx.OracleFail(idx, "CalcImageOffset panicked: "+msg, "pkg/tools/ifd.go:CalcImageOffset", in)
@@ -345,8 +340,8 @@ func calcOffsets(ctx *gal.Ctx, fake, galago []byte) {
 				if got == want {
 					ctx.OracleOK()
 				} else if l.kind == "bios-only" && got == fourGiB-addr {
-					d9 = append(d9, fmt.Sprintf("CalcImageOffset(%s, %#x) = %#x, expected %#x", l.name, addr, got, want))
-					ctx.Rep.OracleChecks++
+					// the former finding C14-D9 (repaired by 98fb605): an ordinary failure now
+					ctx.OracleFail(idx, fmt.Sprintf("CalcImageOffset(%s, %#x) = %#x = 4GiB - addr, the distance from the END of the image; expected %#x (address = 4GiB - size + offset)", l.name, addr, got, want), "pkg/tools/ifd.go:CalcImageOffset (bare BIOS region branch)", in)
 				} else {
 					ctx.OracleFail(idx, fmt.Sprintf("CalcImageOffset(%s, %#x) = %#x, expected %#x (address = 4GiB - size + offset)", l.name, addr, got, want), "pkg/tools/ifd.go:CalcImageOffset", in)
 				}
@@ -361,14 +356,10 @@ func calcOffsets(ctx *gal.Ctx, fake, galago []byte) {
 			}
 		}
 		biosRegionVariants(ctx, l)
-		if len(d9) > 0 {
-			ctx.OracleFailKnown(firstIdx, findD9, fmt.Sprintf("%d address(es): %s", len(d9), d9[0]), "pkg/tools/ifd.go:CalcImageOffset (bare BIOS region branch)",
-				map[string]interface{}{"image": l.name, "size": size, "examples": head(d9, 4)})
-		}
 	}
-	// fixed witness
+	// fixed witness of the former finding C14-D9 (repaired by 98fb605): reproduced = not the offset
 	got, err := tools.CalcImageOffset(fake, 0xfffffff0)
-	ctx.Probe(findD9, err == nil && got == 0x10 && len(fake) == 0x10000,
+	ctx.Probe(findD9, len(fake) == 0x10000 && !(err == nil && got == 0xfff0),
 		fmt.Sprintf("tools.CalcImageOffset(fake_intel_firmware.fd (64 KiB, bare BIOS region), 0xfffffff0) = %#x, err=%v; the byte is at offset 0xfff0", got, err))
 }
 
